@@ -53,7 +53,10 @@ def replay_input(binp, path, base_env, times=3, timeout=25, extra_env=None):
 
 def run_unit(unit, binp, tier, seed, workdir, base_env):
     """Runs one libFuzzer campaign. Returns dict(evaluations, nontrivial, distinct, labels, samples, failures=[...], inconclusive=[...])."""
-    cfg = unit['tiers'][tier]; name = unit['name']
+    cfg = dict(unit['tiers'][tier]); name = unit['name']
+    # knobs for long background campaigns (not used by the MANIFEST commands): VERIF_FUZZ_SECONDS, VERIF_FUZZ_RUNS
+    if os.environ.get('VERIF_FUZZ_SECONDS'): cfg['seconds'] = int(os.environ['VERIF_FUZZ_SECONDS'])
+    if os.environ.get('VERIF_FUZZ_RUNS'): cfg['runs'] = int(os.environ['VERIF_FUZZ_RUNS'])
     seeds = os.path.join(workdir, 'seeds-' + name); corpus = os.path.join(workdir, 'corpus-' + name); art = os.path.join(workdir, 'art-' + name) + '/'
     for d in (seeds, corpus, art): os.makedirs(d, exist_ok=True)
     res = dict(evaluations=0, nontrivial=0, distinct=0, labels={}, samples=[], failures=[], inconclusive=[], seeds=0)
